@@ -65,7 +65,9 @@ RULE = ("worlds of 1..6 resources (.rtdc files and DCOR resources) with "
         "opened through new_dataset (RTDC_HDF5), RTDC_HTTP, RTDC_S3 (boto3 "
         "unsigned) and RTDC_DCOR (fake dcserv API) on loopback addresses, "
         "directly or as hierarchy child / grandchild; four orders of access; "
-        "whole arrays read twice. Oracle-only: missing basinmap feature, "
+        "whole arrays read twice; world edits (basin files replaced at "
+        "the same path by files of another measurement / other features, "
+        "then a fresh open in the same process). Oracle-only: missing basinmap feature, "
         "internal basin without mapping, enable_basins=False. Non-trivial: "
         "at least one basin is followed from the root; distinct = different "
         "case dict")
@@ -413,17 +415,21 @@ def write_world(case, base, port):
             meta["experiment"].pop("date")
             meta["setup"].pop("identifier")
         assigned = []
+        if os.path.exists(path):
+            os.unlink(path)      # replaced, not rewritten in place
         with RTDCWriter(path, mode="reset") as hw:
             hw.store_metadata(meta)
             for ft in f["innate"]:
                 hw.store_feature("userdef%d" % ft, np.arange(L) * 1.0
-                                 + 1000 * (i + 1) + 10 * ft)
+                                 + 1000 * (i + 1) + 10 * ft
+                                 + 200 * f.get("ver", 0))
             if f["internal"]:
                 grp = hw.h5file.require_group("basin_events")
                 for ft in f["internal"]:
                     hw.write_ndarray(grp, "userdef%d" % ft,
                                      np.arange(L) * 1.0
-                                     + 1000 * (i + 1) + 500 + 10 * ft)
+                                     + 1000 * (i + 1) + 500 + 10 * ft
+                                     + 200 * f.get("ver", 0))
             if not f["innate"]:
                 # a file needs an event count
                 hw.store_feature("frame", np.arange(1, L + 1,
@@ -647,15 +653,23 @@ def observe(case, base, port):
                             dec.add("bad")
                             continue
                         iv = int(v)
-                        dec.add((iv // 1000 - 1, (iv % 1000) >= 500,
-                                 (iv % 100) // 10))
+                        hund = (iv % 1000) // 100   # 0 2 | 5 7
+                        dec.add((iv // 1000 - 1, hund >= 5,
+                                 (iv % 100) // 10, 1 if hund in (2, 7) else 0))
                         ev.append(iv % 10)
                     if len(dec) != 1 or "bad" in dec or \
                             list(dec)[0][2] != ft or arr.ndim != 1:
                         res["source"].append(-3)   # mixed / foreign data
                     else:
-                        src, internal, _ = list(dec)[0]
-                        res["source"].append(src + (100 if internal else 0))
+                        src, internal, _, ver = list(dec)[0]
+                        if 0 <= src < len(case["files"]) and \
+                                ver != case["files"][src].get("ver", 0):
+                            # data of a file that is no longer at that path
+                            res["source"].append(-3)
+                            res["stale"] = "userdef%d" % ft
+                        else:
+                            res["source"].append(
+                                src + (100 if internal else 0))
                     # a second read must return the same data
                     again = [float(x) for x in np.array(
                         ds["userdef%d" % ft][:], dtype=float).ravel()]
@@ -746,6 +760,31 @@ def has_cycle(case):
     return any(state[i] == 0 and visit(i) for i in range(n))
 
 
+def second_case(case):
+    """The world after the edit: some basin files (same paths, same basin
+    definitions) are replaced by files of another measurement / with other
+    features and other data."""
+    c2 = json.loads(json.dumps(case))
+    edit = c2.pop("edit")
+    for k, new in edit.items():
+        f = c2["files"][int(k)]
+        f.update(new)
+        f["ver"] = 1
+    return c2
+
+
+def observe_case(case, base, port):
+    """observe(); with an "edit": afterwards, in the same process, replace
+    the edited files and observe a fresh open of the root again."""
+    res = observe(case, base, port)
+    if case.get("edit") and res["status"] == 0:
+        c2 = second_case(case)
+        _, ko2 = write_world(c2, base, port)
+        res["second"] = observe(c2, base, port)
+        res["keyorder2"] = ko2
+    return res
+
+
 def observe_in_child(case, base, port):
     """observe() in a forked child that is killed when it exceeds the time
     limit (dclab catches BaseException in places, so an exception raised by
@@ -757,7 +796,7 @@ def observe_in_child(case, base, port):
         code = 0
         try:
             os.close(r)
-            res = observe(case, base, port)
+            res = observe_case(case, base, port)
             data = json.dumps(res).encode()
             while data:
                 n = os.write(w, data)
@@ -768,7 +807,8 @@ def observe_in_child(case, base, port):
             os._exit(code)
     os.close(w)
     buf = b""
-    t_end = time.time() + case_limit(case) + 2.5
+    t_end = time.time() + case_limit(case) * (
+        2 if case.get("edit") else 1) + 2.5
     alive = True
     try:
         while True:
@@ -1075,6 +1115,22 @@ def oracle_exotic(case, res):
 
 
 def oracle(case, res):
+    """Both opens of a case with a world edit; a violation (no finding id)
+    in either takes precedence over a known finding."""
+    out = [oracle1(case, res)]
+    if case.get("edit") and "second" in res:
+        f2 = oracle1(second_case(case), res["second"])
+        if f2 is not None:
+            out.append(("[fresh open after replacing basin files %s] %s" % (
+                sorted(case["edit"]), f2[0]), f2[1]))
+    out = [f for f in out if f is not None]
+    for f in out:
+        if f[1] is None:
+            return f
+    return out[0] if out else None
+
+
+def oracle1(case, res):
     """Returns (description, finding id) of the first failure, or None."""
     if case.get("exotic"):
         return oracle_exotic(case, res)
@@ -1384,9 +1440,37 @@ def gen_case(rng, max_files=6):
         rootfmt = "s3" if r < 0.07 else "dcor" if r < 0.27 else "http"
     add_dcor(rng, files, rootfmt == "dcor")
     finish_case(rng, files)
-    return dict(root=dict(fmt=rootfmt, file=0), files=files,
+    case = dict(root=dict(fmt=rootfmt, file=0), files=files,
                 proto=rng.choice([0, 0, 1, 2, 3]),
                 hier=rng.choice([0, 0, 0, 1, 2]))
+    if n > 1 and rng.random() < 0.25:
+        case["edit"] = rand_edit(rng, files)
+    return case
+
+
+def rand_edit(rng, files):
+    """Replace one or two basin files (not the root) between two opens in
+    one process: other measurement and/or other features, other data."""
+    edit = {}
+    for j in rng.sample(range(1, len(files)), min(len(files) - 1,
+                                                   rng.choice([1, 1, 2]))):
+        r = rng.random()
+        if r < 0.35:
+            new = dict(rid=files[0]["rid"], ridmode=files[0]["ridmode"],
+                       time=files[0]["time"])          # now the root's
+        elif r < 0.7:
+            new = dict(rid=rng.choice(["b", "zz"]), ridmode="run",
+                       time=TIMES[0])                  # now unrelated
+        else:
+            new = rand_rid(rng)
+        if files[j].get("dcor"):
+            if new["ridmode"] == "empty":
+                new["ridmode"] = "derived"
+        elif rng.random() < 0.5:
+            new["innate"] = sorted(rng.sample(range(NFEAT),
+                                              rng.randint(0, 3)))
+        edit[str(j)] = new
+    return edit
 
 
 def graph_cases(n, rng, variants):
@@ -1488,7 +1572,7 @@ def run_one(case):
             res = observe_in_child(case, base, where)
         else:
             # no reference cycle: the in-process timer is enough
-            res = observe(case, base, where)
+            res = observe_case(case, base, where)
         res["elapsed"] = round(time.time() - t0, 2)
     finally:
         shutil.rmtree(base, ignore_errors=True)
@@ -1603,7 +1687,23 @@ def check_cases(run, cases, record=True):
     idx = [k for k in range(len(cases)) if results[k][1] is not None
            and results[k][0]["status"] != 3 and not cases[k].get("exotic")]
     model = model_of(idx)
+    idx2 = [k for k in idx if cases[k].get("edit")
+            and "second" in results[k][0]]
+    model2 = {}
+    if idx2:
+        rendered = [render(second_case(cases[k]), results[k][0]["keyorder2"])
+                    for k in idx2]
+        model2 = dict(zip(idx2, common.coq_map(
+            run.scratch, "c14b_%d" % len(idx2), HEADER, "run_flat_h",
+            rendered, shard=200)))
     _dbg("model done")
+
+    def disagrees(k, res):
+        if flat_impl(res) != model[k]:
+            return True
+        return k in model2 and "second" in res and \
+            flat_impl(res["second"]) != model2[k]
+
     # Timeouts, disagreements and unknown oracle failures are re-run once
     # (4 workers, quiet machine): a loaded machine can make a loopback
     # request miss dclab's 0.5 s / 1 s socket timeouts.
@@ -1611,7 +1711,7 @@ def check_cases(run, cases, record=True):
     for k in idx:
         res = results[k][0]
         f = oracle(cases[k], res)
-        if res["status"] == 1 or flat_impl(res) != model[k] or (
+        if res["status"] == 1 or disagrees(k, res) or (
                 f is not None and f[1] not in known):
             again.append(k)
     # (only a bounded number: a systematic failure does not need it)
@@ -1633,6 +1733,8 @@ def check_cases(run, cases, record=True):
             if r[1] is not None and r[0]["status"] not in (3, 4):
                 if flat_impl(r[0]) != flat_impl(results[k][0]):
                     run.count("unstable-observation")
+                if k in model2 and "second" not in r[0]:
+                    continue
                 results[k] = r
         run.count("re-run", len(again))
     _dbg("re-run done (%d)" % len(again))
@@ -1663,6 +1765,13 @@ def check_cases(run, cases, record=True):
             run.corr_checked += 1
             if model[k] != flat_impl(res):
                 run.mismatch(case, model[k], flat_impl(res))
+        if k in model2 and "second" in res:
+            run.corr_checked += 1
+            run.count("second-open-after-edit")
+            if model2[k] != flat_impl(res["second"]):
+                run.mismatch(case, model2[k], flat_impl(res["second"]),
+                             what="correspondence (fresh open after the "
+                                  "world edit)")
 
 
 # mapped basins of unverified kinds without basinmap feature need the fix
@@ -1788,6 +1897,10 @@ def shrink(run, failure):
                              for lc in b["locs"]):
             c = json.loads(json.dumps(case))
             c["files"].pop()
+            if "edit" in c:
+                c["edit"].pop(str(n - 1), None)
+                if not c["edit"]:
+                    del c["edit"]
             if still(c):
                 case = c
                 changed = True
